@@ -133,6 +133,8 @@ func init() {
 			}},
 		Rule{ID: "C12.o", Explain: "no failure is dropped in package rangeproof (a failed split, generator or structure extraction ends the call) (same rule as C08.g: the error a call returns has a use - a nil test or a return - before it is overwritten, shadowed or left behind).",
 			Run: func(P *Program, R *Report) { errorResultsUsedRule(P, R, "C12.o", inFiles(P, "rangeproof/"), nil, 5) }},
+		Rule{ID: "C12.p", Explain: "the response a range proof is tied to is a bound one: an attribute index is never both disclosed and hidden (the obligations of C01.g, same rule) - a tolerated response at a disclosed index is skipped when Z is rebuilt and still used as the range proof's attribute response.",
+			Run: func(P *Program, R *Report) { sharedRule(P, R, "C01", "C01.g", "C12.p", nil) }},
 	)
 }
 
